@@ -210,9 +210,7 @@ impl Mul for &LazyBigint {
                 LazyBigint::Short,
             ),
             (LazyBigint::Short(s), LazyBigint::Long(b))
-            | (LazyBigint::Long(b), LazyBigint::Short(s)) => {
-                LazyBigint::Long(assert_is_long(b * s))
-            }
+            | (LazyBigint::Long(b), LazyBigint::Short(s)) => LazyBigint::from(b * s),
             (LazyBigint::Long(b0), LazyBigint::Long(b1)) => {
                 LazyBigint::Long(assert_is_long(b0 * b1))
             }
